@@ -38,7 +38,7 @@ ASSUMPTIONS = [
 ]
 FLOORS = {
     "quick": {"history_executed": 380, "call_equals_fresh_call": 700, "alone_reproducible": 39},
-    "thorough": {"history_executed": 3000, "call_equals_fresh_call": 9000, "alone_reproducible": 39},
+    "thorough": {"history_executed": 3100, "call_equals_fresh_call": 8500, "alone_reproducible": 39},
 }
 SHARD_TIMEOUT = {"quick": 1500, "thorough": 10000}
 
